@@ -26,7 +26,7 @@ SWP = ("SWAP", "ISWAP", "SQRTISWAP", "SQRTSWAP", "BERKELEY", "SWAPalpha")
 HANDLED = CTL + SWP
 ORD = ("RZX",)          # ordered two-target gates: routed once fixes/C13-3.patch is in place (source_rz)
 MODEL_NAMES = HANDLED + ORD
-SYMMETRIC = SWP + ("CSIGN",)
+SYMMETRIC = SWP + ("CSIGN", "SWAPALPHA")
 ALPHA = 0.3125          # arg_value used for SWAPalpha (dyadic)
 
 
@@ -93,7 +93,7 @@ def source_variant(repo=None):
     return found[0]
 
 
-_CC = {"v": None, "rz": None}
+_CC = {"v": None, "rz": None, "alias": None}
 
 
 def source_rz():
@@ -107,9 +107,26 @@ def source_rz():
     return _CC["rz"]
 
 
+def source_alias():
+    """do the router's lists also have "SWAPALPHA", the name an instance of the class SWAPALPHA carries
+    (fixes/C07-6.patch)?  An unrecognised source is held to the repaired reading."""
+    if _CC.get("alias") is None:
+        try:
+            _CC["alias"] = bool(T_dev.route_class_name())
+        except TranslatorError:
+            _CC["alias"] = True
+    return _CC["alias"]
+
+
 def handled_names():
     """the gate names the router of the tree rewrites"""
-    return HANDLED + ORD if source_rz() else HANDLED
+    return (HANDLED + ORD if source_rz() else HANDLED) + (("SWAPALPHA",) if source_alias() else ())
+
+
+def known_class_name_gap(d):
+    """the recorded finding (proposed repair fixes/C07-6): an instance of the exported class SWAPALPHA carries the name
+    "SWAPALPHA", which the router's lists ("SWAPalpha") do not have - the gate is passed through unrouted"""
+    return ("meas" not in d and d.get("form") == "class" and d["name"] == "SWAPalpha" and not source_alias())
 
 
 def variant_cc():
@@ -135,10 +152,12 @@ def build(w):
                 qc.add_gate(Gate(g["name"], targets=g["targets"], controls=g["controls"], arg_value=g["arg"]))
             elif g.get("form") == "class":
                 # an instance of the library class of that name, handed to add_gate as an object
-                from qutip_qip.operations import GATE_CLASS_MAP
+                # ... as a user writes it: CSIGN(controls=0, targets=3) from the public exports, no name argument
+                import qutip_qip.operations as OPS
                 kw = {k: v for k, v in (("targets", g["targets"]), ("controls", g["controls"]), ("arg_value", g["arg"]))
                       if v is not None}
-                qc.add_gate(GATE_CLASS_MAP[g["name"]](**kw))
+                cls = getattr(OPS, g["name"], None) or getattr(OPS, g["name"].upper(), None) or OPS.GATE_CLASS_MAP[g["name"]]
+                qc.add_gate(cls(**kw))
             elif g.get("form") == "moved":
                 # the gate object of another circuit
                 other = QubitCircuit(w["N"], num_cbits=3)
@@ -176,13 +195,14 @@ class Tags:
             m = g.name
             k = self._t(self.meas, (m.name, tuple(m.targets), m.classical_store), 0)
             return "m%d/%s/%s/0/0" % (k, ",".join(map(str, g.controls or [])), ",".join(map(str, g.targets or [])))
-        name = g.name if g.name in MODEL_NAMES else "o%d" % self._t(self.names, g.name, 0)
+        gname = "SWAPalpha" if (g.name == "SWAPALPHA" and source_alias()) else g.name
+        name = gname if gname in MODEL_NAMES else "o%d" % self._t(self.names, g.name, 0)
         av = g.arg_value
         akey = None if av is None else repr(tuple(av) if isinstance(av, (list, tuple, np.ndarray)) else av)
         a = self._t(self.args, akey, 0)
         cc = None if g.classical_controls is None else tuple(g.classical_controls)
         ekey = (cc, g.classical_control_value)
-        if g.name not in MODEL_NAMES:
+        if gname not in MODEL_NAMES:
             ekey = ekey + (g.control_value,)
         if ekey in ((None, None), (None, None, None)):
             x = 0
@@ -416,19 +436,26 @@ def check_single(w, qc=None, sink=None):
     if qc is None:
         return False, f"not constructible ({exc})", None
     handled = handled_names() if api == "chain" else HANDLED
-    for g in qc.gates:
+    # which gate the user asked for: for a gate built from a library class (`form: class`) that is the class the
+    # witness names - an instance of the exported class CSIGN is a CSIGN gate, whatever name attribute it carries
+    asked = [None if isinstance(g, Measurement) else g.name for g in qc.gates]
+    if len(w["gates"]) == len(qc.gates):
+        for k, d in enumerate(w["gates"]):
+            if "meas" not in d and d.get("form") == "class":
+                asked[k] = d["name"]
+    for g, nm in zip(qc.gates, asked):
         qs = qubits_of(g)
         if any(not (0 <= q < N) for q in qs) or len(set(qs)) != len(qs):
             return False, "outside the property's domain (qubit out of range or repeated)", qc
-        if not isinstance(g, Measurement) and g.name in handled and (
-                len(qs) != 2 or len(g.targets) != (1 if g.name in CTL else 2)):
+        if nm is not None and nm in handled and (
+                len(qs) != 2 or len(g.targets) != (1 if nm in CTL else 2)):
             return False, "outside the property's domain (malformed handled gate)", qc
     if setup not in ("linear", "circular"):
         return False, "outside the property's domain (setup)", qc
     st, r = run_impl(qc, api, setup if api == "chain" else None, w)
     if sink is not None:
         sink.append(r)
-    unhandled = [g for g in qc.gates if isinstance(g, Measurement) or g.name not in handled]
+    unhandled = [g for g, nm in zip(qc.gates, asked) if nm is None or nm not in handled]
     if api == "adjacent":
         setup = "linear"
         if unhandled:
@@ -436,19 +463,21 @@ def check_single(w, qc=None, sink=None):
     if st != "ok":
         return True, f"routing raised ({st})", qc
     out = r.gates
-    # (i) indices, (ii) adjacency of every gate the router emitted
-    passed = []
+    # (iv) the gates the router does not handle come out unchanged and in order; (i), (ii) EVERY other gate of the
+    # output - whatever its name - is what the router made of a handled gate: in range, on two neighbouring qubits
+    k = 0
     for g in out:
-        if isinstance(g, Measurement) or isinstance(g.name, Measurement) or g.name not in handled:
-            passed.append(g)
+        if k < len(unhandled) and (g is unhandled[k] or (type(g) is type(unhandled[k]) and vars(g) == vars(unhandled[k]))):
+            k += 1
             continue
+        nm = g.name if isinstance(getattr(g, "name", None), str) else type(g).__name__
         qs = qubits_of(g)
         if any(not (0 <= q < N) for q in qs):
-            return True, f"qubit index out of range in {g.name}{qs} (N={N})", qc
+            return True, f"qubit index out of range in {nm}{qs} (N={N})", qc
         if len(qs) != 2 or not adjacent(setup, N, qs[0], qs[1]):
-            return True, f"{g.name}{qs} does not act on neighbours of the {setup} chain (N={N})", qc
-    # (iv) pass-through unchanged and in order
-    if len(passed) != len(unhandled) or any(a is not b and vars(a) != vars(b) for a, b in zip(passed, unhandled)):
+            extra = "" if nm in handled else " (an unrouted gate the router was asked to handle, or a gate it does not pass through unchanged)"
+            return True, f"{nm}{qs} does not act on neighbours of the {setup} chain (N={N})" + extra, qc
+    if k != len(unhandled):
         return True, "unhandled gates are not passed through unchanged and in order", qc
     # (v) same operation: exact normal form for every N
     nf0, nf1 = normal_form(N, qc.gates), normal_form(N, out)
@@ -830,7 +859,7 @@ class C07(PropertyCheck):
 
     # ---------------------------------------------------------------------------------
     def regenerate(self, ctx):
-        _CC["v"] = _CC["rz"] = None
+        _CC["v"] = _CC["rz"] = _CC["alias"] = None
         try:
             _CC["v"] = bool(source_variant())
             _CC["rz"] = bool(T_dev.route_rzx())
@@ -838,6 +867,13 @@ class C07(PropertyCheck):
             _CC["v"] = True if _CC["v"] is None else _CC["v"]      # strict reading, see variant_cc / source_rz
             _CC["rz"] = True
             raise
+        try:
+            _CC["alias"] = bool(T_dev.route_class_name())
+        except TranslatorError:
+            _CC["alias"] = True
+            raise
+        ctx.log("source shape: a gate named SWAPALPHA (instance of the class) is %s (fixes/C07-6 %s)" % (
+            ("routed", "applied") if _CC["alias"] else ("passed through", "not applied")))
         ctx.log("source shape: RZX is %s (fixes/C13-3 %s)" % (("routed", "applied") if _CC["rz"] else
                                                                ("passed through", "not applied")))
         ctx.log("source shape: the routed gate %s its classical condition (fixes/C07-5 %s)"
@@ -900,7 +936,15 @@ class C07(PropertyCheck):
                 impl = st if r is None else "ok " + ";".join(tags.gate(g) for g in r.gates)
                 verdicts.append(impl.split(" ")[0] + (" " + impl.split(" ")[1] if impl.startswith("err") else ""))
                 what = None
-                if impl != o:
+                named = [(d["name"], g.name) for d, g in zip(c.get("gates", []), qc.gates)
+                         if "meas" not in d and d.get("form") == "class" and g.name != d["name"]
+                         and not (d["name"] == "SWAPalpha" and g.name == "SWAPALPHA")] \
+                    if len(c.get("gates", [])) == len(qc.gates) else []
+                if named:
+                    what = (f"an instance of the library class {named[0][0]} carries the name {named[0][1]!r}: the router "
+                            "(which dispatches on gate.name) and the model are not looking at the gate the user asked for")
+                    o, impl = "gate named " + named[0][0], "gate named " + str(named[0][1])
+                elif impl != o:
                     what = "routed gate lists differ"
                 elif request(tags, c) != line:
                     what, impl = "the router changed its input circuit", "input afterwards: " + request(tags, c)
@@ -1093,6 +1137,11 @@ class C07(PropertyCheck):
         return f, d
 
     def finding_matches(self, witness, finding):
+        if finding.get("class") == "class-instance-name":
+            if "chain_history" in witness:
+                return False
+            cs = witness["history"] if "history" in witness else [witness]
+            return any("meas" not in d and d.get("form") == "class" and d["name"] == "SWAPalpha" for c in cs for d in c["gates"])
         if finding.get("class") == "conditioned-handled-gate":
             if "chain_history" in witness:
                 return False
@@ -1104,7 +1153,11 @@ class C07(PropertyCheck):
     def _in_theorem_class(w):
         """While the source drops classical conditions the theorems exclude conditioned handled gates
         (route_den_C: hx); the finding is recorded and replayed on its own."""
-        if variant_cc() or "chain_history" in w:
+        if "chain_history" in w:
+            return True
+        if any(known_class_name_gap(d) for c in (w["history"] if "history" in w else [w]) for d in c["gates"]):
+            return False
+        if variant_cc():
             return True
         cs = w["history"] if "history" in w else [w]
         return not any(conditioned_handled(c) for c in cs)
